@@ -115,6 +115,20 @@ func ruleC15_1(c *Ctx) {
 				c.Fail("C15.1", key, desc, where+": the key's own file is created/truncated and written in place. Witness: a concurrent Get reads a prefix; a write cut at byte k (full disk, kill) leaves a k-byte value that is later returned as valid", where)
 				return
 			}
+			// the temporary name must be unique per writer: it depends on a counter, random source or clock
+			uniq := c.An.dependsOnCall(name, func(x *ssa.Call) bool {
+				sc := x.Call.StaticCallee()
+				if sc == nil {
+					return false
+				}
+				n := sc.String()
+				return strings.Contains(n, "sync/atomic") || strings.HasPrefix(n, "crypto/rand.") || strings.HasPrefix(n, "math/rand") ||
+					n == "os.CreateTemp" || n == "os.MkdirTemp" || strings.Contains(n, "time.Time).UnixNano") || n == "time.Now"
+			})
+			if !uniq {
+				c.Fail("C15.1", "temp-name-unique fn="+c.P.ShortName(fn), "concurrent writers never share a temporary file", where+": the temporary name does not depend on a per-call unique source (counter / random / clock); two concurrent Sets of one key truncate and rename each other's half-written file", where)
+				return
+			}
 			// derived/temp name: require the rename protocol on the success path
 			var ren ssa.Instruction
 			instrsOf(fn, func(i2 ssa.Instruction) {
